@@ -738,7 +738,7 @@ func (x *Exec) step(st *State, fr *frame, in ssa.Instruction) bool {
 			id, sort, h := st.elemHeap(at.Elem())
 			_ = id
 			_ = sort
-			st.assume(eq("(select "+h+" "+loc+")", "((as const (Array Int "+e.sortOf(at.Elem())+")) "+e.zero(at.Elem())+")"))
+			st.assumeZeroArray("(select "+h+" "+loc+")", at.Elem())
 			fr.regs[in] = Val{T: loc, Ty: in.Type()}
 			return true
 		}
@@ -802,7 +802,7 @@ func (x *Exec) step(st *State, fr *frame, in ssa.Instruction) bool {
 		x.allocHook(st, fr, in, et, cp.T)
 		loc := st.newLoc("mk")
 		_, _, h := st.elemHeap(et)
-		st.assume(eq("(select "+h+" "+loc+")", "((as const (Array Int "+e.sortOf(et)+")) "+e.zero(et)+")"))
+		st.assumeZeroArray("(select "+h+" "+loc+")", et)
 		fr.regs[in] = Val{T: st.name("sl", "Slice", "(mk_slice "+loc+" 0 "+ln.T+" "+cp.T+")"), Ty: in.Type()}
 	case *ssa.MakeMap:
 		loc := st.newLoc("map")
@@ -1163,7 +1163,11 @@ func (x *Exec) slice(st *State, fr *frame, in *ssa.Slice) (Val, bool) {
 		g := and("(<= 0 "+lo+")", "(<= "+lo+" "+hi+")", "(<= "+hi+" "+mx+")", "(<= "+mx+" "+n+")")
 		x.obligeAt(st, fr, "slice-bounds", in.Pos(), "array", g)
 		r := fmt.Sprintf("(mk_slice %s %s (- %s %s) (- %s %s))", st.term(xv), lo, hi, lo, mx, lo)
-		return Val{T: st.name("sl", "Slice", r), Ty: in.Type()}, true
+		rv := Val{T: st.name("sl", "Slice", r), Ty: in.Type()}
+		if in.Low == nil && in.High == nil && in.Max == nil {
+			rv.ArrLen, rv.ArrBase = int(at.Len()), st.term(xv)
+		}
+		return rv, true
 	}
 	x.fail(st, "slice", xv.Ty.String())
 	return Val{}, false
